@@ -411,7 +411,15 @@ func (o *ObjBSI64) copyBSI(method int, f fsArg, seed uint64) (bsiH, string, erro
 			note = fmt.Sprintf("WriteTo returned %d for %d bytes; ", wn, len(fw.Data))
 		}
 		rd := &simio.ChunkedReader{Data: fw.Data, Sizes: chunkSizes(seed), ErrAt: -1, EOFWith: seed&1 == 1}
-		n.B = roaring64.NewDefaultBSI()
+		if seed&2 == 0 && o.Fixed {
+			// a receiver created for the same range as the source: the history continues on it with
+			// values of that range
+			n.B = roaring64.NewBSI(o.Max, o.Min)
+			n.Fixed, n.Min, n.Max = true, o.Min, o.Max
+			note = "receiver NewBSI(max,min) as the source; "
+		} else {
+			n.B = roaring64.NewDefaultBSI()
+		}
 		p, err := n.B.ReadFrom(rd)
 		if err != nil {
 			return nil, "ReadFrom", err
